@@ -569,6 +569,16 @@ def main(check, argv):
 			"replay_cmd": "./check %s --replay %s" % (check.prop_id, path)}, path)
 		ok, why = _confirm(check, path, v["class"], out.digest if
 			check.confirm_digest(rec["leg"]) else None)
+		if not ok and why.startswith("class reproduced but digest differs"):
+			# The same violation shows in a fresh process but not bit for bit.  The
+			# harness is deterministic on its own (selftest/determinism.py), so the
+			# code under test is nondeterministic here (e.g. it reads uninitialised
+			# memory): if the class shows once more, report it, flagged as such.
+			ok2, why2 = _confirm(check, path, v["class"], None)
+			if ok2:
+				ok = True
+				vs[0].detail += " [replays reproduce this violation but not bit for " \
+					"bit: the code under test behaves nondeterministically]"
 		if ok:
 			reported.append((path, vs[0], len(occ)))
 		else:
